@@ -21,6 +21,7 @@ Tok == [
   a3  |-> [s |-> "Grüße Ünï <a3@to.test>", n |-> "Grüße Ünï", a |-> "a3@to.test", ok |-> TRUE],
   a4  |-> [s |-> "<a4@cc.test>", n |-> "", a |-> "a4@cc.test", ok |-> TRUE],
   a5  |-> [s |-> "Plain Name <a5@bcc.test>", n |-> "Plain Name", a |-> "a5@bcc.test", ok |-> TRUE],
+  a6  |-> [s |-> "user%relay.example@to.test", n |-> "", a |-> "user%relay.example@to.test", ok |-> TRUE],   \* '%' is atext
   bad |-> [s |-> "not an address", n |-> "", a |-> "", ok |-> FALSE],
   bad2 |-> [s |-> "trailing@", n |-> "", a |-> "", ok |-> FALSE] ]
 TokIds == DOMAIN Tok
@@ -39,7 +40,7 @@ Fails(st, c) ==
   CASE c.op \in {"set", "add", "fromstr"}              -> ~AllOK(c.ts)
     [] c.op \in {"from", "envfrom", "replyto"}         -> ~AllOK(c.ts)
     [] c.op = "setign"                                 -> FALSE
-    [] c.op \in {"addformat", "fromformat"}            -> FALSE
+    [] c.op \in {"addformat", "fromformat", "reset"}   -> FALSE
     [] OTHER -> FALSE
 
 Single(k) == k \in {"From", "Env", "Reply"}
@@ -54,6 +55,7 @@ Apply(st, c) ==
          [] c.op = "replyto" -> [st EXCEPT !.Reply = IF c.ts = <<>> THEN @ ELSE <<Entry(c.ts[1])>>]
          [] c.op = "addformat"  -> [st EXCEPT ![c.k] = Append(@, [n |-> c.name, a |-> Tok[c.ts[1]].a])]
          [] c.op = "fromformat" -> [st EXCEPT !.From = <<[n |-> c.name, a |-> Tok[c.ts[1]].a]>>]
+         [] c.op = "reset"      -> InitSt          \* Msg.Reset: every address list, the envelope-from included
          [] OTHER -> st
 
 RECURSIVE ApplyAll(_, _)
@@ -85,6 +87,7 @@ MenuSmall ==
   \cup {C("from", "From", <<t>>, "") : t \in {"a4", "bad"}}
   \cup {C("envfrom", "Env", <<"a5">>, ""), C("replyto", "Reply", <<"a2">>, "")}
   \cup {C("addformat", "Bcc", <<"a1">>, NameCls.quoted)}
+  \cup {C("reset", "To", <<>>, ""), C("add", "Cc", <<"a6">>, "")}
 
 MenuFull ==
      {C("set", k, <<t>>, "") : k \in Kinds, t \in {"a1", "a2", "a3", "a4"}}
@@ -100,6 +103,7 @@ MenuFull ==
   \cup {C("replyto", "Reply", <<t>>, "") : t \in {"a2", "a3"}}
   \cup {C("addformat", k, <<"a1">>, NameCls[nm]) : k \in Kinds, nm \in DOMAIN NameCls}
   \cup {C("fromformat", "From", <<"a4">>, NameCls[nm]) : nm \in DOMAIN NameCls}
+  \cup {C("reset", "To", <<>>, "")} \cup {C("set", k, <<"a6">>, "") : k \in Kinds}
 
 Menu == IF MENU = "full" THEN MenuFull ELSE MenuSmall
 
